@@ -34,7 +34,8 @@ LEVEL = {
                "single lookup, nothing else can intercept a user exception; (R06.2) no handler replaces or wraps an "
                "exception outside the documented protocol raises; (R06.3) finally blocks and library __aexit__ "
                "methods cannot mask an exception; (R06.4) no source or callable is used again on the exceptional "
-               "continuation of its failure.",
+               "continuation of its failure; (R06.5) never deferred: no item or computed result is held back across a further "
+               "pull of the source.",
     "not_decided": "that the items delivered before the failure equal the standard library's (value-level, C01 "
                    "residual); identity of the exception object rests on Python's propagation once no handler "
                    "intercepts it.",
